@@ -37,9 +37,18 @@ jobs:
         id: dup
       - run: echo ${{ matrix.foo }}
 '''
-# message id k (1-based, unfiltered output order) <-> fragment of its message
+# not YAML: the only diagnostic is the syntax error, no rule runs
+WORKFLOW_Y = 'on: push\njobs:\n  test: [\n'
+# diagnostics of the workflow parser only
+WORKFLOW_P = 'on: push\nfoo: bar\njobs:\n  test:\n    runs-on: ubuntu-latest\n    steps:\n      - run: echo hi\n        bar: 1\n'
+# message id k (1-based) <-> fragment = beginning of its message.  Ids 1..5: WORKFLOW in unfiltered output order,
+# 6: WORKFLOW_Y, 7..8: WORKFLOW_P (Filter.tla: MsgsOf)
 FRAGS = ['label "linux-xyz" is unknown', 'undefined variable "undefined_var"', 'shell name "fish9" is invalid',
-         'step ID "dup" duplicates', 'property "foo" is not defined']
+         'step ID "dup" duplicates', 'property "foo" is not defined', 'could not parse as YAML',
+         'unexpected key "foo" for "workflow" section', 'unexpected key "bar" for "step" section']
+FILE_IDS = {'a': [1, 2, 3, 4, 5], 's': [1, 2, 3, 4, 5], 'b': [1, 2, 3, 4, 5], 'o': [1, 2, 3, 4, 5], 'y': [6], 'p': [7, 8]}
+TAIL = 24       # length of the message ending used by the "end" pattern form
+MESSAGES = {}   # id -> full message, filled by baseline() from the real unfiltered output
 NEVER = 'zz no such message (zz)'
 MAX_PER_SITE = 4
 
@@ -49,11 +58,25 @@ def quote_meta(s):
     return ''.join('\\' + c if c in '\\.+*?()|[]{}^$' else c for c in s)
 
 
-def regex_of(ids, anchor=False):
-    """every fragment is the beginning of its message: CLI patterns are anchored with ^, config patterns are not"""
-    if not ids:
-        return quote_meta(NEVER)
-    return '|'.join(('^' if anchor else '') + quote_meta(FRAGS[i - 1]) for i in ids)
+def regex_of(p, anchor=False):
+    """Rendering of a pattern record of Filter.tla.  Every fragment is the beginning of its message: "set" patterns
+    on the command line are anchored with ^, those of the configuration are not."""
+    if p['f'] == 'set':
+        if not p['s']:
+            return quote_meta(NEVER)
+        return '|'.join(('^' if anchor else '') + quote_meta(FRAGS[i - 1]) for i in p['s'])
+    frag = FRAGS[p['k'] - 1]
+    if p['f'] == 'icase':
+        return '(?i)' + quote_meta(frag.swapcase())
+    if p['f'] == 'wrongcase':
+        return quote_meta(frag.swapcase())
+    if p['f'] == 'start':
+        return '^' + quote_meta(frag)
+    if p['f'] == 'end':
+        return quote_meta(MESSAGES[p['k']][-TAIL:]) + '$'
+    if p['f'] == 'full':
+        return '^' + quote_meta(MESSAGES[p['k']]) + '$'
+    raise Inconclusive('unknown pattern form %r' % (p,))
 
 
 def render_cfg(c):
@@ -84,6 +107,8 @@ def make_layout(base, cfg, cfgb):
         os.makedirs(os.path.join(top, repo, '.git'), exist_ok=True)
         put(os.path.join(top, repo, '.github', 'workflows', 'a.yml'), WORKFLOW)
     put(os.path.join(top, 'repo', '.github', 'workflows', 'sub', 'b.yml'), WORKFLOW)
+    put(os.path.join(top, 'repo', '.github', 'workflows', 'y.yml'), WORKFLOW_Y)
+    put(os.path.join(top, 'repo', '.github', 'workflows', 'p.yml'), WORKFLOW_P)
     put(os.path.join(top, 'other', 'x.yml'), WORKFLOW)
     if cfg is not None:
         put(os.path.join(top, 'repo-b', '.github', 'actionlint.yaml'), render_cfg(cfgb))
@@ -152,12 +177,14 @@ def execute(binary, v, base, mode):
 
 
 def baseline(binary, base0):
-    """unfiltered diagnostics (line, col, message, kind) of every file: layout without any configuration,
-    no -ignore, absolute spelling from top; both output formats must agree."""
-    files = {'a': ['top', 'repo', '.github', 'workflows', 'a.yml'],
-             's': ['top', 'repo', '.github', 'workflows', 'sub', 'b.yml'],
+    """unfiltered diagnostics of every file, {file name: {message id: (line, col, message, kind)}}: layout without
+    any configuration, no -ignore, absolute spelling from top; both output formats must agree.  Also checks that
+    the rendered pattern forms have exactly the matching relation Filter.tla defines (Matches)."""
+    wf = ['top', 'repo', '.github', 'workflows']
+    files = {'a': wf + ['a.yml'], 's': wf + ['sub', 'b.yml'], 'y': wf + ['y.yml'], 'p': wf + ['p.yml'],
              'b': ['top', 'repo-b', '.github', 'workflows', 'a.yml'], 'o': ['top', 'other', 'x.yml']}
     res = {}
+    MESSAGES.clear()
     for name, segs in files.items():
         v = {'cwd': ['top'], 'ff': 'none', 'cli': [], 'cfg': {'k': 'none', 'src': 'repo'},
              'args': [{'abs': True, 'segs': segs}]}
@@ -170,16 +197,27 @@ def baseline(binary, base0):
         if per[0] != per[1]:
             raise Inconclusive('baseline: -oneline and -format json disagree for %s' % name)
         ds = per[0]
-        if len(ds) != len(FRAGS):
+        ids = FILE_IDS[name]
+        if len(ds) != len(ids):
             raise Inconclusive('baseline of %s has %d diagnostics, the specification assumes %d: %r'
-                               % (name, len(ds), len(FRAGS), ds))
-        for i, d in enumerate(ds):
-            for k, frag in enumerate(FRAGS):
-                if (frag in d[2]) != (i == k) or (i == k and not d[2].startswith(frag)):
-                    raise Inconclusive('message fragment %r does not identify diagnostic %d of %s: %r' % (frag, k + 1, name, d))
-            if NEVER in d[2]:
-                raise Inconclusive('never-matching pattern matches')
-        res[name] = ds
+                               % (name, len(ds), len(ids), ds))
+        for k, d in zip(ids, ds):
+            if MESSAGES.setdefault(k, d[2]) != d[2]:
+                raise Inconclusive('message %d differs between files: %r / %r' % (k, MESSAGES[k], d[2]))
+        res[name] = {k: tuple(d) for k, d in zip(ids, ds)}
+    if sorted(MESSAGES) != list(range(1, len(FRAGS) + 1)):
+        raise Inconclusive('message ids %r' % sorted(MESSAGES))
+    # the matching relation of every pattern form, checked on the real messages with the rendered text
+    for k, frag in enumerate(FRAGS, 1):
+        for i, msg in MESSAGES.items():
+            same = i == k
+            facts = [(frag in msg) == same, msg.startswith(frag) == same,
+                     (frag.swapcase().lower() in msg.lower()) == same, frag.swapcase() not in msg,
+                     frag.swapcase() != frag, msg.endswith(MESSAGES[k][-TAIL:]) == same, NEVER not in msg,
+                     '\n' not in msg]
+            if not all(facts):
+                raise Inconclusive('pattern forms of message %d do not have the specified relation to message %d (%r): %r'
+                                   % (k, i, facts, msg))
     return res
 
 
@@ -187,7 +225,7 @@ def expected_of(v, base, base_diags):
     exp = []
     for f in v['files']:
         p = os.path.join(base, *f['path'])
-        exp += [(p,) + tuple(base_diags[f['name']][i - 1]) for i in f['exp']]
+        exp += [(p,) + base_diags[f['name']][i] for i in f['exp']]
     return exp
 
 
@@ -195,13 +233,16 @@ def op_of(v, base, base_diags, field='op'):
     exp = []
     for f in v['files']:
         p = os.path.join(base, *f['path'])
-        exp += [(p,) + tuple(base_diags[f['name']][i - 1]) for i in f[field]]
+        exp += [(p,) + base_diags[f['name']][i] for i in f[field]]
     return exp
 
 
 def judge(v, r, base, base_diags, mode):
     """-> None or (kind, site, text, extra).  Decided by the TLC prediction (declarative layer) alone."""
     if v['lint']:
+        for f in v['files']:
+            if f['all'] != FILE_IDS[f['name']]:
+                raise Inconclusive('diagnostics of file %s: specification %r, harness %r' % (f['name'], f['all'], FILE_IDS[f['name']]))
         if r['rc'] not in (0, 1):
             return ('exit', 'exit-status:lint', 'exit status %d (stderr %r), accepted %s'
                     % (r['rc'], r['stderr'][:200], v['exits']), {})
@@ -247,8 +288,8 @@ def ids_of(got, v, base, base_diags):
     out = []
     for f in v['files']:
         p = os.path.join(base, *f['path'])
-        bd = [tuple(x) for x in base_diags[f['name']]]
-        out.append([bd.index(d[1:]) + 1 if d[1:] in bd else 0 for d in got if d[0] == p])
+        inv = {d: k for k, d in base_diags[f['name']].items()}
+        out.append([inv.get(d[1:], 0) for d in got if d[0] == p])
     return out
 
 
@@ -271,10 +312,15 @@ def run(ck, tier):
     sd = vplib.subdir('c15')
     check_no_outer_repo(sd)
     cfgs = [('Filter_quick.cfg', 'files x cwd x spelling x CLI patterns x one paths entry; faults'),
-            ('Filter_quick2.cfg', 'two paths entries, -config-file, file outside a repository, sibling order')]
+            ('Filter_quick2.cfg', 'two paths entries, -config-file, file outside a repository, sibling order'),
+            ('Filter_quick3.cfg', 'files whose only diagnostics are the YAML syntax error / parser errors, patterns matching them or not'),
+            ('Filter_quick4.cfg', 'pattern lists with an inline-flag pattern next to a wrong-case pattern, both orders, CLI and config'),
+            ('Filter_quick5.cfg', 'pattern lists with anchored forms (^A, B$, ^M$), both orders, CLI and config')]
     if tier == 'thorough':
         cfgs = [('Filter_thorough.cfg', 'all files x 6 cwd x 3 spellings x CLI patterns x 12 glob forms x repo/-config-file'),
-                ('Filter_pairs.cfg', 'two paths entries')]
+                ('Filter_pairs.cfg', 'two paths entries'),
+                ('Filter_quick3.cfg', 'files whose only diagnostics are the YAML syntax error / parser errors'),
+                ('Filter_forms.cfg', 'pattern lists with inline-flag / anchored forms in both orders, CLI and config')]
     vecs = []
     for cfg, what in cfgs:
         r = vplib.run_tlc('Filter', cfg, dump='vectors', timeout=3000)
@@ -336,7 +382,7 @@ def run(ck, tier):
         if err:
             raise Inconclusive(err)
         statuses[r['rc']] = statuses.get(r['rc'], 0) + 1
-        if v['lint'] and any(len(f['exp']) < len(FRAGS) for f in v['files']):
+        if v['lint'] and any(len(f['exp']) < len(f['all']) for f in v['files']):
             nontrivial += 1
         if verdict is None:
             if v['lint'] and any(f['op'] != f['exp'] for f in v['files']):
@@ -383,7 +429,8 @@ def run(ck, tier):
                       'per site (all counted in violating_runs_by_site)' % MAX_PER_SITE)
     ck.cov['exhaustive'] = True
     ck.assumptions += ['patterns are alternations of regexp.QuoteMeta(message fragment); each fragment identifies exactly one '
-                       'of the 5 diagnostics (checked on the unfiltered run)',
+                       'of the 8 diagnostics; the inline-flag and anchored pattern forms have exactly the relation Matches of Filter.tla '
+                       '(both checked on the unfiltered real messages)',
                        'glob forms are literal segments, *.yml, * and ** whose doublestar meaning equals GMatch of Filter.tla',
                        'an invalid regular expression given to -ignore may exit with 2 or 3 (the property does not classify it)',
                        'unreadable file = missing file or directory (the checks run as root, permissions do not bite)',
@@ -396,7 +443,7 @@ def selftest(ck, binary, vecs, results, layouts, base_diags):
     added / wrong exit status) must be rejected by the comparison with the real run."""
     for i, mode, r, verdict, err in results:
         v = vecs[i]
-        if verdict is None and v['lint'] and v['files'] and 0 < len(v['files'][0]['exp']) < len(FRAGS):
+        if verdict is None and v['lint'] and v['files'] and 0 < len(v['files'][0]['exp']) < len(v['files'][0]['all']):
             base = layouts[cfg_key(v)]
             r2 = execute(binary, v, base, mode)
             if judge(v, r2, base, base_diags, mode) is not None:
@@ -408,7 +455,7 @@ def selftest(ck, binary, vecs, results, layouts, base_diags):
                 if variant == 'drop':
                     w['files'][0]['exp'] = e[1:]
                 elif variant == 'add':
-                    w['files'][0]['exp'] = sorted(set(e) | {min(set(range(1, len(FRAGS) + 1)) - set(e))})
+                    w['files'][0]['exp'] = sorted(set(e) | {min(set(w['files'][0]['all']) - set(e))})
                 else:
                     w['exits'] = [0]
                 if judge(w, r2, base, base_diags, mode) is None:
